@@ -68,7 +68,11 @@ func (r *run) fail(prop, class string, tags map[string]string, format string, ar
 	if prop == r.prop {
 		if r.viol == nil {
 			r.viol = v
-			r.log.Addf("VIOLATION %s %s", class, v.Msg)
+			if tags["measured"] == "" {
+				// (a verdict over a measured quantity - bytes allocated - is not part of the canonical event log: a
+				// run that sits on the threshold may be judged differently by two processes)
+				r.log.Addf("VIOLATION %s %s", class, v.Msg)
+			}
 		}
 		return
 	}
